@@ -77,6 +77,14 @@ package api
 //@   trusted
 //@   requires m != nil
 
+// Plugin file names: "<two digits>-<name>" (strings.SplitN(name, "-", 2) is modelled exactly)
+//@ pure dashAt(name string) = indexof(name, "-")
+//@ func ParsePluginName
+//@   props C18 C17
+//@   ensures [ok]   result.2 == nil ==> twoDigits(result.0) && name == result.0 + "-" + result.1
+//@   ensures [good] dashAt(name) >= 0 && twoDigits(substr(name, 0, dashAt(name))) ==> result.2 == nil
+//@   ensures [bad]  dashAt(name) < 0 || !twoDigits(substr(name, 0, dashAt(name))) ==> result.2 != nil && result.0 == "" && result.1 == ""
+
 // ---------------------------------------------------------------------------
 // LinuxResources.Copy (resources.go): equal fields, no shared mutable state
 // ---------------------------------------------------------------------------
